@@ -46,9 +46,18 @@ Thm/C07/Switch.vos Thm/C07/Switch.vok Thm/C07/Switch.required_vos: Thm/C07/Switc
 Props/C07.vo Props/C07.glob Props/C07.v.beautified Props/C07.required_vo: Props/C07.v Core/Base.vo Core/Prog.vo Sem/Interp.vo Sem/InterpFacts.vo Gen/State.vo Sem/ScnSwitch.vo Thm/C07/Switch.vo
 Props/C07.vio: Props/C07.v Core/Base.vio Core/Prog.vio Sem/Interp.vio Sem/InterpFacts.vio Gen/State.vio Sem/ScnSwitch.vio Thm/C07/Switch.vio
 Props/C07.vos Props/C07.vok Props/C07.required_vos: Props/C07.v Core/Base.vos Core/Prog.vos Sem/Interp.vos Sem/InterpFacts.vos Gen/State.vos Sem/ScnSwitch.vos Thm/C07/Switch.vos
-Thm/C01/Gate.vo Thm/C01/Gate.glob Thm/C01/Gate.v.beautified Thm/C01/Gate.required_vo: Thm/C01/Gate.v Core/Base.vo Core/Prog.vo Py/Sig.vo Sem/Interp.vo Sem/InterpFacts.vo Sem/StmtFacts.vo Sem/Model.vo Gen/Validators.vo Gen/HasPatcher.vo Gen/Contracts.vo
-Thm/C01/Gate.vio: Thm/C01/Gate.v Core/Base.vio Core/Prog.vio Py/Sig.vio Sem/Interp.vio Sem/InterpFacts.vio Sem/StmtFacts.vio Sem/Model.vio Gen/Validators.vio Gen/HasPatcher.vio Gen/Contracts.vio
-Thm/C01/Gate.vos Thm/C01/Gate.vok Thm/C01/Gate.required_vos: Thm/C01/Gate.v Core/Base.vos Core/Prog.vos Py/Sig.vos Sem/Interp.vos Sem/InterpFacts.vos Sem/StmtFacts.vos Sem/Model.vos Gen/Validators.vos Gen/HasPatcher.vos Gen/Contracts.vos
-Props/C01.vo Props/C01.glob Props/C01.v.beautified Props/C01.required_vo: Props/C01.v Core/Base.vo Core/Prog.vo Py/Sig.vo Sem/Interp.vo Sem/InterpFacts.vo Sem/Model.vo Gen/Validators.vo Gen/HasPatcher.vo Gen/Contracts.vo Sem/Scenario.vo Thm/C01/Gate.vo
-Props/C01.vio: Props/C01.v Core/Base.vio Core/Prog.vio Py/Sig.vio Sem/Interp.vio Sem/InterpFacts.vio Sem/Model.vio Gen/Validators.vio Gen/HasPatcher.vio Gen/Contracts.vio Sem/Scenario.vio Thm/C01/Gate.vio
-Props/C01.vos Props/C01.vok Props/C01.required_vos: Props/C01.v Core/Base.vos Core/Prog.vos Py/Sig.vos Sem/Interp.vos Sem/InterpFacts.vos Sem/Model.vos Gen/Validators.vos Gen/HasPatcher.vos Gen/Contracts.vos Sem/Scenario.vos Thm/C01/Gate.vos
+Thm/Common/Loops.vo Thm/Common/Loops.glob Thm/Common/Loops.v.beautified Thm/Common/Loops.required_vo: Thm/Common/Loops.v Core/Base.vo Core/Prog.vo Py/Sig.vo Sem/Interp.vo Sem/InterpFacts.vo Sem/StmtFacts.vo Sem/Model.vo Gen/Validators.vo
+Thm/Common/Loops.vio: Thm/Common/Loops.v Core/Base.vio Core/Prog.vio Py/Sig.vio Sem/Interp.vio Sem/InterpFacts.vio Sem/StmtFacts.vio Sem/Model.vio Gen/Validators.vio
+Thm/Common/Loops.vos Thm/Common/Loops.vok Thm/Common/Loops.required_vos: Thm/Common/Loops.v Core/Base.vos Core/Prog.vos Py/Sig.vos Sem/Interp.vos Sem/InterpFacts.vos Sem/StmtFacts.vos Sem/Model.vos Gen/Validators.vos
+Thm/C01/Gate.vo Thm/C01/Gate.glob Thm/C01/Gate.v.beautified Thm/C01/Gate.required_vo: Thm/C01/Gate.v Core/Base.vo Core/Prog.vo Py/Sig.vo Sem/Interp.vo Sem/InterpFacts.vo Sem/StmtFacts.vo Sem/Model.vo Gen/Validators.vo Gen/HasPatcher.vo Gen/Contracts.vo Thm/Common/Loops.vo
+Thm/C01/Gate.vio: Thm/C01/Gate.v Core/Base.vio Core/Prog.vio Py/Sig.vio Sem/Interp.vio Sem/InterpFacts.vio Sem/StmtFacts.vio Sem/Model.vio Gen/Validators.vio Gen/HasPatcher.vio Gen/Contracts.vio Thm/Common/Loops.vio
+Thm/C01/Gate.vos Thm/C01/Gate.vok Thm/C01/Gate.required_vos: Thm/C01/Gate.v Core/Base.vos Core/Prog.vos Py/Sig.vos Sem/Interp.vos Sem/InterpFacts.vos Sem/StmtFacts.vos Sem/Model.vos Gen/Validators.vos Gen/HasPatcher.vos Gen/Contracts.vos Thm/Common/Loops.vos
+Props/C01.vo Props/C01.glob Props/C01.v.beautified Props/C01.required_vo: Props/C01.v Core/Base.vo Core/Prog.vo Py/Sig.vo Sem/Interp.vo Sem/InterpFacts.vo Sem/Model.vo Gen/Validators.vo Gen/HasPatcher.vo Gen/Contracts.vo Sem/Scenario.vo Thm/Common/Loops.vo Thm/C01/Gate.vo
+Props/C01.vio: Props/C01.v Core/Base.vio Core/Prog.vio Py/Sig.vio Sem/Interp.vio Sem/InterpFacts.vio Sem/Model.vio Gen/Validators.vio Gen/HasPatcher.vio Gen/Contracts.vio Sem/Scenario.vio Thm/Common/Loops.vio Thm/C01/Gate.vio
+Props/C01.vos Props/C01.vok Props/C01.required_vos: Props/C01.v Core/Base.vos Core/Prog.vos Py/Sig.vos Sem/Interp.vos Sem/InterpFacts.vos Sem/Model.vos Gen/Validators.vos Gen/HasPatcher.vos Gen/Contracts.vos Sem/Scenario.vos Thm/Common/Loops.vos Thm/C01/Gate.vos
+Thm/C02/Post.vo Thm/C02/Post.glob Thm/C02/Post.v.beautified Thm/C02/Post.required_vo: Thm/C02/Post.v Core/Base.vo Core/Prog.vo Py/Sig.vo Sem/Interp.vo Sem/InterpFacts.vo Sem/StmtFacts.vo Sem/Model.vo Gen/Validators.vo Gen/HasPatcher.vo Gen/Contracts.vo Thm/Common/Loops.vo
+Thm/C02/Post.vio: Thm/C02/Post.v Core/Base.vio Core/Prog.vio Py/Sig.vio Sem/Interp.vio Sem/InterpFacts.vio Sem/StmtFacts.vio Sem/Model.vio Gen/Validators.vio Gen/HasPatcher.vio Gen/Contracts.vio Thm/Common/Loops.vio
+Thm/C02/Post.vos Thm/C02/Post.vok Thm/C02/Post.required_vos: Thm/C02/Post.v Core/Base.vos Core/Prog.vos Py/Sig.vos Sem/Interp.vos Sem/InterpFacts.vos Sem/StmtFacts.vos Sem/Model.vos Gen/Validators.vos Gen/HasPatcher.vos Gen/Contracts.vos Thm/Common/Loops.vos
+Props/C02.vo Props/C02.glob Props/C02.v.beautified Props/C02.required_vo: Props/C02.v Core/Base.vo Core/Prog.vo Py/Sig.vo Sem/Interp.vo Sem/InterpFacts.vo Sem/Model.vo Gen/Validators.vo Gen/HasPatcher.vo Gen/Contracts.vo Sem/Scenario.vo Thm/Common/Loops.vo Thm/C02/Post.vo
+Props/C02.vio: Props/C02.v Core/Base.vio Core/Prog.vio Py/Sig.vio Sem/Interp.vio Sem/InterpFacts.vio Sem/Model.vio Gen/Validators.vio Gen/HasPatcher.vio Gen/Contracts.vio Sem/Scenario.vio Thm/Common/Loops.vio Thm/C02/Post.vio
+Props/C02.vos Props/C02.vok Props/C02.required_vos: Props/C02.v Core/Base.vos Core/Prog.vos Py/Sig.vos Sem/Interp.vos Sem/InterpFacts.vos Sem/Model.vos Gen/Validators.vos Gen/HasPatcher.vos Gen/Contracts.vos Sem/Scenario.vos Thm/Common/Loops.vos Thm/C02/Post.vos
